@@ -6,7 +6,7 @@
                   element exactly once (Permutation)
    *_eq_brute     from the invariant alone: each query returns what the exhaustive scan returns   *)
 From PF Require Export Trees.Octree.
-From Coq Require Import Permutation Sorting.Sorted Lqa Lia.
+From Coq Require Import Permutation Sorting.Sorted Lqa Lia Qfield.
 Open Scope Z_scope.
 
 (* ---------- induction over trees (children are a list) ---------- *)
@@ -173,4 +173,281 @@ Proof.
     cbn [tbox] in S. rewrite (far_mono _ _ _ _ S W E). reflexivity.
   - rewrite scan_node. f_equal. apply flat_map_ext_in. intros c Hc.
     rewrite Forall_forall in IH, Hch. apply IH; auto.
+Qed.
+
+(* ---------- newOctree establishes the invariant and keeps every element exactly once ---------- *)
+Lemma oct_index_lt c p : (oct_index c p < 8)%nat.
+Proof. unfold oct_index. destruct (px p <? px c), (py p <? py c), (pz p <? pz c); cbn; lia. Qed.
+Lemma octant_lt c e : (octant c e < 8)%nat.
+Proof. unfold octant. destruct (_ <? _); apply oct_index_lt. Qed.
+
+Lemma flat_map_insert_out {A} (F : nat -> list A) (x : A) (a : nat) n s :
+  ~ (s <= a < s + n)%nat ->
+  flat_map (fun k => if Nat.eqb a k then x :: F k else F k) (seq s n) = flat_map F (seq s n).
+Proof.
+  intros H. apply flat_map_ext_in. intros k Hk. apply in_seq in Hk.
+  destruct (Nat.eqb a k) eqn:E; [|reflexivity]. apply Nat.eqb_eq in E. lia.
+Qed.
+
+Lemma flat_map_insert {A} (F : nat -> list A) (x : A) (a : nat) : forall n s,
+  (s <= a < s + n)%nat ->
+  Permutation (flat_map (fun k => if Nat.eqb a k then x :: F k else F k) (seq s n))
+              (x :: flat_map F (seq s n)).
+Proof.
+  induction n as [|n IH]; intros s H; [lia|].
+  cbn [seq flat_map]. destruct (Nat.eqb a s) eqn:E.
+  - apply Nat.eqb_eq in E. subst s. rewrite flat_map_insert_out by lia. reflexivity.
+  - apply Nat.eqb_neq in E.
+    eapply Permutation_trans; [apply Permutation_app_head, IH; lia|].
+    symmetry. apply Permutation_middle.
+Qed.
+
+Lemma flat_map_nil {A B} (l : list A) : flat_map (fun _ => @nil B) l = [].
+Proof. induction l; cbn; auto. Qed.
+
+(* distributing a list over n buckets by a key below n loses and duplicates nothing *)
+Lemma partition_perm {A} (f : A -> nat) (n : nat) (l : list A) :
+  (forall x, In x l -> (f x < n)%nat) ->
+  Permutation (flat_map (fun k => filter (fun x => Nat.eqb (f x) k) l) (seq 0 n)) l.
+Proof.
+  induction l as [|x l IH]; intros H.
+  - cbn. rewrite flat_map_nil. constructor.
+  - cbn [filter].
+    eapply Permutation_trans; [apply (flat_map_insert (fun k => filter (fun y => Nat.eqb (f y) k) l) x (f x) n 0)|].
+    + specialize (H x (or_introl eq_refl)). lia.
+    + constructor. apply IH. intros y Hy. apply H. right; exact Hy.
+Qed.
+
+Lemma build_none d els : build d els = None -> els = [].
+Proof.
+  destruct els as [|e0 [|e1 r]]; [reflexivity | destruct d; discriminate |].
+  destruct d as [|d]; [discriminate|]. cbn [build].
+  destruct (flat_map _ _) as [|? [|? ?]]; discriminate.
+Qed.
+
+Lemma kids_perm (bld : list eref -> option tree) (F : nat -> list eref) (ks : list nat) :
+  (forall k, match bld (F k) with
+             | Some t => inv t /\ Permutation (tree_elems t) (F k)
+             | None => F k = [] end) ->
+  let kids := flat_map (fun k => opt_list (bld (F k))) ks in
+  Forall inv kids /\ Permutation (flat_map tree_elems kids) (flat_map F ks).
+Proof.
+  intros H. induction ks as [|k ks [IH1 IH2]]; cbn; [split; constructor|].
+  specialize (H k). destruct (bld (F k)) as [t|]; cbn.
+  - destruct H as [Hi Hp]. split; [constructor; assumption|].
+    apply Permutation_app; assumption.
+  - rewrite H. cbn. split; assumption.
+Qed.
+
+Lemma inv_leaf b els :
+  (forall e, In e els -> wf_box (e_box e) /\ box_sub (e_box e) b) -> inv (Node b els []).
+Proof.
+  intros H. rewrite inv_node. split; [|constructor].
+  cbn [tree_elems flat_map]. rewrite app_nil_r. exact H.
+Qed.
+
+Theorem build_inv : forall d els t,
+  (forall e, In e els -> wf_box (e_box e)) ->
+  build d els = Some t -> inv t /\ Permutation (tree_elems t) els.
+Proof.
+  assert (L1 : forall e0, (forall e, In e [e0] -> wf_box (e_box e)) ->
+               inv (Node (e_box e0) [e0] []) /\ Permutation (tree_elems (Node (e_box e0) [e0] [])) [e0]).
+  { intros e0 W. split; [|cbn; constructor; constructor].
+    apply inv_leaf. intros e [<-|[]]. split; [apply W; left; reflexivity | apply box_sub_refl]. }
+  induction d as [|d IH]; intros els t W B.
+  - destruct els as [|e0 [|e1 r]]; [discriminate| |]; cbn [build] in B; injection B as <-.
+    + apply L1, W.
+    + split; [|cbn [tree_elems flat_map]; rewrite app_nil_r; apply Permutation_refl].
+      apply inv_leaf. intros e He. split; [apply W, He | apply hull_contains, He].
+  - destruct els as [|e0 [|e1 r]]; [discriminate| |].
+    + cbn [build] in B. injection B as <-. apply L1, W.
+    + remember (e0 :: e1 :: r) as els eqn:Eels.
+      assert (B' : (let b := hull e0 els in let c := center b in
+                    let kids := flat_map (fun k => opt_list (build d (filter (fun e => Nat.eqb (octant c e) k) els))) (seq 0 8) in
+                    match kids with [t] => Some t | _ => Some (Node b [] kids) end) = Some t).
+      { rewrite <- B. rewrite Eels. reflexivity. }
+      clear B. cbv zeta in B'.
+      set (b := hull e0 els) in *. set (c := center b) in *.
+      set (F := fun k => filter (fun e => Nat.eqb (octant c e) k) els) in *.
+      destruct (kids_perm (build d) F (seq 0 8)) as [Ki Kp].
+      { intros k. destruct (build d (F k)) as [t'|] eqn:Bk.
+        - apply (IH _ _ ) in Bk; [exact Bk|]. intros e He. apply W. unfold F in He.
+          apply filter_In in He. apply He.
+        - apply build_none in Bk. exact Bk. }
+      assert (Kp' : Permutation (flat_map tree_elems (flat_map (fun k => opt_list (build d (F k))) (seq 0 8))) els).
+      { eapply Permutation_trans; [exact Kp|]. apply partition_perm. intros x _. apply octant_lt. }
+      clear Kp.
+      assert (N : inv (Node b [] (flat_map (fun k => opt_list (build d (F k))) (seq 0 8)))).
+      { rewrite inv_node. split; [|exact Ki]. cbn [tree_elems app]. intros e He.
+        assert (In e els) by (eapply Permutation_in; eassumption).
+        split; [apply W; assumption | apply hull_contains; assumption]. }
+      change (flat_map (fun k => opt_list (build d (filter (fun e => Nat.eqb (octant c e) k) els))) (seq 0 8))
+        with (flat_map (fun k => opt_list (build d (F k))) (seq 0 8)) in B'.
+      destruct (flat_map (fun k => opt_list (build d (F k))) (seq 0 8)) as [|t1 [|t2 kids]];
+        injection B' as <-.
+      * split; [exact N | exact Kp'].
+      * split; [inversion Ki; assumption|]. cbn in Kp'. rewrite app_nil_r in Kp'. exact Kp'.
+      * split; [exact N | exact Kp'].
+Qed.
+
+(* ---------- the slab test is monotone ---------- *)
+Open Scope Q_scope.
+Lemma Qle_bool_false a b : Qle_bool a b = false <-> b < a.
+Proof.
+  split.
+  - intros H. apply Qnot_le_lt. intros L. apply Qle_bool_iff in L. congruence.
+  - intros H. destruct (Qle_bool a b) eqn:E; auto. apply Qle_bool_iff in E. lra.
+Qed.
+Lemma Qltb_true a b : Qltb a b = true <-> a < b.
+Proof. unfold Qltb. rewrite negb_true_iff. apply Qle_bool_false. Qed.
+Lemma Qltb_false a b : Qltb a b = false <-> b <= a.
+Proof. unfold Qltb. rewrite negb_false_iff. apply Qle_bool_iff. Qed.
+
+Lemma Qdiv_le_pos d x y : 0 < d -> x <= y -> x / d <= y / d.
+Proof.
+  intros Hd H. unfold Qdiv. apply Qmult_le_compat_r; [exact H|].
+  apply Qlt_le_weak, Qinv_lt_0_compat, Hd.
+Qed.
+Lemma Qdiv_le_neg d x y : d < 0 -> x <= y -> y / d <= x / d.
+Proof.
+  intros Hd H.
+  assert (E : forall z, z / d == (- z) / (- d)) by (intros z; field; lra).
+  rewrite (E x), (E y). apply Qdiv_le_pos; lra.
+Qed.
+
+Ltac qb :=
+  repeat match goal with
+  | H : Qltb _ _ = true |- _ => apply Qltb_true in H
+  | H : Qltb _ _ = false |- _ => apply Qltb_false in H
+  | H : Qle_bool _ _ = true |- _ => apply Qle_bool_iff in H
+  | H : Qle_bool _ _ = false |- _ => apply Qle_bool_false in H
+  end.
+
+Definition qmn (a b : Q) : Q := if Qltb b a then b else a.
+Definition qmx (a b : Q) : Q := if Qltb a b then b else a.
+Lemma qmn_spec a b : qmn a b <= a /\ qmn a b <= b /\ (qmn a b == a \/ qmn a b == b).
+Proof. unfold qmn. destruct (Qltb b a) eqn:E; qb; (split; [lra|split; [lra|]]); [right|left]; reflexivity. Qed.
+Lemma qmx_spec a b : a <= qmx a b /\ b <= qmx a b /\ (qmx a b == a \/ qmx a b == b).
+Proof. unfold qmx. destruct (Qltb a b) eqn:E; qb; (split; [lra|split; [lra|]]); [right|left]; reflexivity. Qed.
+
+Definition slab1_nz (o d bl bh : Q) (r : Q * Q) : option (Q * Q) :=
+  let a0 := (bl - o) / d in let a1 := (bh - o) / d in
+  let tmin' := qmx (fst r) (qmn a0 a1) in
+  let tmax' := qmn (snd r) (qmx a1 a0) in
+  if Qle_bool tmax' tmin' then None else Some (tmin', tmax').
+Lemma slab1_nz_eq o d bl bh r : ~ d == 0 -> slab1 o d bl bh r = slab1_nz o d bl bh r.
+Proof.
+  intros H. unfold slab1, slab1_nz. destruct r as [tmin tmax].
+  destruct (Qcompare d 0) eqn:C; [apply Qeq_alt in C; contradiction| |]; reflexivity.
+Qed.
+
+Lemma slab1_nz_mono o d bla bha blb bhb ra rb ra' :
+  ~ d == 0 ->
+  blb <= bla -> bla <= bha -> bha <= bhb -> fst rb <= fst ra -> snd ra <= snd rb ->
+  slab1_nz o d bla bha ra = Some ra' ->
+  exists rb', slab1_nz o d blb bhb rb = Some rb' /\ fst rb' <= fst ra' /\ snd ra' <= snd rb'.
+Proof.
+  intros Hd H1 H2 H3 H4 H5. unfold slab1_nz. cbv zeta.
+  assert (M : ((blb - o) / d <= (bla - o) / d /\ (bla - o) / d <= (bha - o) / d /\ (bha - o) / d <= (bhb - o) / d) \/
+              ((bhb - o) / d <= (bha - o) / d /\ (bha - o) / d <= (bla - o) / d /\ (bla - o) / d <= (blb - o) / d)).
+  { destruct (Q_dec d 0) as [[Hn|Hp]|He]; [right|left|contradiction].
+    - repeat split; apply Qdiv_le_neg; try assumption; lra.
+    - repeat split; apply Qdiv_le_pos; try assumption; lra. }
+  generalize dependent ((bla - o) / d). intros a0a.
+  generalize dependent ((bha - o) / d). intros a1a.
+  generalize dependent ((blb - o) / d). intros a0b.
+  generalize dependent ((bhb - o) / d). intros a1b M.
+  destruct (qmn_spec a0a a1a) as (A1 & A2 & A3). destruct (qmx_spec a1a a0a) as (A4 & A5 & A6).
+  destruct (qmn_spec a0b a1b) as (B1 & B2 & B3). destruct (qmx_spec a1b a0b) as (B4 & B5 & B6).
+  generalize dependent (qmn a0a a1a). intros t0a. generalize dependent (qmx a1a a0a). intros t1a.
+  generalize dependent (qmn a0b a1b). intros t0b. generalize dependent (qmx a1b a0b). intros t1b. intros.
+  destruct (qmx_spec (fst ra) t0a) as (C1 & C2 & C3). destruct (qmn_spec (snd ra) t1a) as (C4 & C5 & C6).
+  destruct (qmx_spec (fst rb) t0b) as (D1 & D2 & D3). destruct (qmn_spec (snd rb) t1b) as (D4 & D5 & D6).
+  generalize dependent (qmx (fst ra) t0a). intros lo_a. generalize dependent (qmn (snd ra) t1a). intros hi_a.
+  generalize dependent (qmx (fst rb) t0b). intros lo_b. generalize dependent (qmn (snd rb) t1b). intros hi_b. intros.
+  destruct (Qle_bool hi_a lo_a) eqn:E; [discriminate|]. injection H as <-. qb.
+  assert (lo_b <= lo_a /\ hi_a <= hi_b).
+  { destruct M as [M|M], A3, A6, B3, B6, C3, C6, D3, D6; split; lra. }
+  replace (Qle_bool hi_b lo_b) with false by (symmetry; apply Qle_bool_false; lra).
+  eexists; split; [reflexivity|]. cbn [fst snd]. lra.
+Qed.
+
+(* one axis of the slab test: a larger slab and a larger parameter range leave a larger range *)
+Lemma slab1_mono o d bla bha blb bhb ra rb ra' :
+  blb <= bla -> bla <= bha -> bha <= bhb -> fst rb <= fst ra -> snd ra <= snd rb ->
+  slab1 o d bla bha ra = Some ra' ->
+  exists rb', slab1 o d blb bhb rb = Some rb' /\ fst rb' <= fst ra' /\ snd ra' <= snd rb'.
+Proof.
+  intros H1 H2 H3 H4 H5. destruct (Qeq_dec d 0) as [Hd|Hd].
+  - destruct ra as [tmin tmax], rb as [umin umax]. cbn [fst snd] in *. unfold slab1.
+    apply Qeq_alt in Hd. rewrite Hd.
+    destruct (Qle_bool bla o && Qle_bool o bha)%bool eqn:E1; [|discriminate].
+    apply andb_true_iff in E1. destruct E1 as [E1 E2].
+    destruct (Qle_bool tmax tmin) eqn:E3; [discriminate|]. intros [= <-]. qb.
+    replace (Qle_bool blb o && Qle_bool o bhb)%bool with true
+      by (symmetry; apply andb_true_iff; split; apply Qle_bool_iff; lra).
+    replace (Qle_bool umax umin) with false by (symmetry; apply Qle_bool_false; lra).
+    eexists; split; [reflexivity|]. cbn [fst snd]; lra.
+  - rewrite !slab1_nz_eq by exact Hd. apply slab1_nz_mono; assumption.
+Qed.
+
+Lemma q4_mono x y : (x <= y)%Z -> q4 x <= q4 y.
+Proof. intros H. unfold q4. apply Qdiv_le_pos; [reflexivity|]. rewrite <- Zle_Qle. exact H. Qed.
+
+(* AABB.IntersectsRayInRange is monotone in the box and in the parameter range *)
+Theorem slab_mono a b ry ra rb :
+  box_sub a b -> wf_box a -> fst rb <= fst ra -> snd ra <= snd rb ->
+  slab a ry ra = true -> slab b ry rb = true.
+Proof.
+  intros S W R1 R2. unfold slab. destruct ry as [o [[dx dy] dz]].
+  unfold box_sub in S. unfold wf_box in W. destruct S as (S1 & S2 & S3 & S4 & S5 & S6). destruct W as (W1 & W2 & W3).
+  apply q4_mono in S1, S2, S3, S4, S5, S6, W1, W2, W3.
+  assert (K : 0 <= keps) by (unfold keps, Qle; cbn; lia).
+  destruct (slab1 (q4 (px o)) dx (q4 (px (bmin a)) - keps) (q4 (px (bmax a)) + keps) ra) as [r1|] eqn:E1; [|discriminate].
+  eapply slab1_mono in E1; [destruct E1 as (r1' & -> & X1 & X2) | | | | exact R1 | exact R2]; try lra.
+  cbn [obind].
+  destruct (slab1 (q4 (py o)) dy (q4 (py (bmin a)) - keps) (q4 (py (bmax a)) + keps) r1) as [r2|] eqn:E2; [|discriminate].
+  eapply slab1_mono in E2; [destruct E2 as (r2' & -> & Y1 & Y2) | | | | exact X1 | exact X2]; try lra.
+  cbn [obind].
+  destruct (slab1 (q4 (pz o)) dz (q4 (pz (bmin a)) - keps) (q4 (pz (bmax a)) + keps) r2) as [r3|] eqn:E3; [|discriminate].
+  eapply slab1_mono in E3; [destruct E3 as (r3' & -> & Z1 & Z2) | | | | exact Y1 | exact Y2]; try lra.
+Qed.
+Close Scope Q_scope.
+Open Scope Z_scope.
+
+(* ---------- ElementsIntersectingRay ---------- *)
+Lemma Qle_refl' x : (x <= x)%Q.
+Proof. apply Qle_refl. Qed.
+
+Theorem ray_hits_eq_scan ry r : forall t, inv t -> ray_hits t ry r = scan (fun b => slab b ry r) t.
+Proof.
+  induction t as [b els ch IH] using tree_ind'. intros Hinv.
+  pose proof (inv_elems _ Hinv) as Hel. rewrite inv_node in Hinv. destruct Hinv as [_ Hch].
+  cbn [ray_hits]. destruct (slab b ry r) eqn:E.
+  - rewrite scan_node. f_equal. apply flat_map_ext_in. intros c Hc.
+    rewrite Forall_forall in IH, Hch. apply IH; auto.
+  - symmetry. apply scan_nil. intros e He. destruct (Hel e He) as [W S]. cbn [tbox] in S.
+    destruct (slab (e_box e) ry r) eqn:E2; [|reflexivity].
+    rewrite (slab_mono _ _ ry r r S W (Qle_refl' _) (Qle_refl' _) E2) in E. discriminate.
+Qed.
+
+(* TraverseIntersectingRay with an iterator that leaves the range alone visits the same elements *)
+Lemma trav_els_id ry r els :
+  trav_els (fun _ r => r) ry els r = (map e_idx (filter (fun e => slab (e_box e) ry r) els), r).
+Proof.
+  unfold trav_els.
+  assert (G : forall acc, fold_left (fun (st : list nat * (Q * Q)) e => let (vis, r0) := st in
+              if slab (e_box e) ry r0 then (vis ++ [e_idx e], r0) else (vis, r0)) els (acc, r)
+              = (acc ++ map e_idx (filter (fun e => slab (e_box e) ry r) els), r)).
+  { induction els as [|e els IHe]; intros acc; cbn [fold_left filter map]; [rewrite app_nil_r; reflexivity|].
+    destruct (slab (e_box e) ry r); rewrite IHe; [|reflexivity].
+    cbn [map]. rewrite <- app_assoc. reflexivity. }
+  apply (G []).
+Qed.
+
+Theorem traverse_id_eq_ray_hits ry r : forall t, traverse (fun _ r => r) t ry r = ray_hits t ry r.
+Proof.
+  induction t as [b els ch IH] using tree_ind'. cbn [traverse ray_hits].
+  destruct (slab b ry r); [|reflexivity]. rewrite trav_els_id. f_equal.
+  apply flat_map_ext_in. intros c Hc. rewrite Forall_forall in IH. apply IH, Hc.
 Qed.
